@@ -29,6 +29,7 @@ def _gate_eval(ctx, body, op_adt, variant, o, found, extra_atom=None, extra_asm=
     'C04': 'a duplicated add after a covering remove would make the member present again',
     'C05': 'a duplicated update after a covering key remove would recreate the key',
     'C12': 'a duplicated insert after its delete would re-insert the element',
+    'C20': 'the state is a function of the set of updates learned: a duplicate that changes the replica makes equal knowledge unequal',
     'C03': 'Orswot, Map: an op whose update the replica already holds (it arrived inside a merged state) must be a no-op when it is '
            'delivered as an op too, and a new op that is dropped is kept by the merge of its writer\'s state: the two routes disagree',
 }, floor=4, inst_filter={'C03': lambda i: not i.startswith('list')})
@@ -36,7 +37,7 @@ def gate(ctx):
     """Every write to replica state in a dot-carrying apply arm is reachable only under
     clock.get(actor) < dot.counter."""
     facts = ctx.facts
-    prop_of = {'orswot': ['C09', 'C04', 'C03'], 'map': ['C09', 'C05', 'C03'], 'list': ['C09', 'C12']}
+    prop_of = {'orswot': ['C09', 'C04', 'C03', 'C20'], 'map': ['C09', 'C05', 'C03', 'C20'], 'list': ['C09', 'C12']}
     for inst, adt, op_adt, vs in GATED:
         body = ctx.method(adt, 'CmRDT', 'apply')
         it = interp(facts, body)
@@ -108,6 +109,7 @@ def _merkle_atoms(hash_found):
     'C09': 're-delivering a node must not change dag/orphans/roots',
     'C15': 'a duplicate node would be re-rooted (its children already demoted stay demoted, but it is re-inserted as a head)',
     'C03': 'a node the register already holds through a merged state must be a no-op when its op is delivered as well',
+    'C02': 'MerkleReg::merge applies every node of the other side through apply (MK-MERGE): idempotence of merge is this gate',
 }, floor=1)
 def gate_merkle(ctx):
     """MerkleReg::apply writes state only when the node's hash is in neither dag nor orphans."""
@@ -148,13 +150,14 @@ def gate_merkle(ctx):
     'C12': 'List: a second op by the actor would reuse the dot',
     'C04': 'an unabsorbed dot makes a later remove context miss the add',
     'C05': 'same for Map updates',
+    'C20': 'replicas that learned the same updates must hold the same clock',
     'C03': 'Orswot, Map: with the dot unabsorbed the replica that applied the op and the replica that merged the writer\'s state '
            'answer the next (re-)delivery differently',
 }, floor=3)
 def absorb(ctx):
     """In every gated arm, under the gate, every normal path joins the op's dot into the replica clock."""
     facts = ctx.facts
-    prop_of = {'orswot': ['C09', 'C07', 'C04', 'C03'], 'map': ['C09', 'C07', 'C05', 'C03'], 'list': ['C09', 'C12']}
+    prop_of = {'orswot': ['C09', 'C07', 'C04', 'C03', 'C20'], 'map': ['C09', 'C07', 'C05', 'C03', 'C20'], 'list': ['C09', 'C12']}
     for inst, adt, op_adt, vs in GATED:
         body = ctx.method(adt, 'CmRDT', 'apply')
         it = interp(facts, body)
@@ -192,7 +195,13 @@ def absorb(ctx):
     'C09': 'a merged-in update that is not in the clock is adopted again from any stale state',
     'C03': 'an op already contained in a merged state must be a no-op when delivered later; the gate only looks at the clock',
     'C07': 'the add context must cover everything the replica has applied',
-}, floor=2)
+    'C02': 'the clock of a merged state decides what the next merge drops or keeps: with other.clock not joined, (a+b)+c and a+(b+c) differ',
+    'C04': 'Orswot: a remove context read after the merge must cover the merged-in adds (it is read off the replica clock)',
+    'C05': 'Map: same for key removes',
+    'C08': 'the growth of the replica clock by a merge is what makes a pending remove applicable (DEF-REEXAM)',
+    'C20': 'replicas that learned the same updates, one of them through a merge, must hold the same clock',
+}, floor=2, inst_filter={'C04': lambda i: i.startswith('orswot') or i in ('floor', 'anchor', 'internal'),
+                         'C05': lambda i: i.startswith('map') or i in ('floor', 'anchor', 'internal')})
 def absorb_merge(ctx):
     """Orswot/Map merge joins other.clock into self.clock on every path."""
     facts = ctx.facts
@@ -248,6 +257,7 @@ def _stamp_sites(it, g, entries_field=None, sub=()):
     'C05': 'an update that does not stamp the entry clock / forward the nested op loses the update',
     'C08': 'an update overtaken by a remove must still be applied in full when it arrives: what the nested op does beyond its own dot is otherwise lost, and causal delivery would have kept it',
     'C03': 'the merge of the writer\'s state carries the stamped member / the nested update: op delivery must leave the same',
+    'C20': 'the witness clock of a member is part of the state replicas with equal knowledge must agree on',
 }, floor=2, inst_filter={'C08': lambda i: i.startswith('map') or i in ('floor', 'anchor', 'internal')})
 def stamp(ctx):
     """Orswot Add: for every member of the op the member's witness clock absorbs the op dot.
@@ -259,7 +269,7 @@ def stamp(ctx):
     found = []
     r, _ = _gate_eval(ctx, body, 'crdts::orswot::Op', 'Add', LT, found)
     if not found:
-        ctx.shape('orswot/Add', body, 'no dot gate (see GATE)', props=['C04', 'C03'])
+        ctx.shape('orswot/Add', body, 'no dot gate (see GATE)', props=['C04', 'C03', 'C20'])
     else:
         g = found[0]
         sts = _stamp_sites(it, g)
@@ -301,17 +311,17 @@ def stamp(ctx):
                 continue
             ok = True
             ctx.ok('orswot/Add', body, 'every member of the op is stamped with the op dot', line=block_line(it, bb),
-                   details={'container': '.'.join(cpath), 'key': fmt(key), 'dot': fmt(g['dot'])}, props=['C04', 'C03'])
+                   details={'container': '.'.join(cpath), 'key': fmt(key), 'dot': fmt(g['dot'])}, props=['C04', 'C03', 'C20'])
             break
         if not ok:
-            ctx.fail('orswot/Add', body, msg, props=['C04', 'C03'])
+            ctx.fail('orswot/Add', body, msg, props=['C04', 'C03', 'C20'])
     # ---- Map
     body = ctx.method(MAP, 'CmRDT', 'apply')
     it = interp(facts, body)
     found = []
     r, _ = _gate_eval(ctx, body, 'crdts::map::Op', 'Up', LT, found)
     if not found:
-        ctx.shape('map/Up', body, 'no dot gate (see GATE)', props=['C05', 'C03'])
+        ctx.shape('map/Up', body, 'no dot gate (see GATE)', props=['C05', 'C03', 'C20'])
         return
     g = found[0]
     sts = [s for s in _stamp_sites(it, g, sub=('clock',))]
@@ -328,11 +338,11 @@ def stamp(ctx):
                 if kp and kp[0] == 2 and kp[1][-1:] == ('Up.key',) and cp and cp[0] == 1:
                     nested.append(bb)
     if not key_ok:
-        ctx.fail('map/Up', body, 'the entry clock of op.key is not stamped with the op dot', props=['C05', 'C08', 'C03'])
+        ctx.fail('map/Up', body, 'the entry clock of op.key is not stamped with the op dot', props=['C05', 'C08', 'C03', 'C20'])
     elif not nested:
-        ctx.fail('map/Up', body, 'the nested op is not forwarded to entries[op.key].val.apply', props=['C05', 'C08', 'C03'])
+        ctx.fail('map/Up', body, 'the nested op is not forwarded to entries[op.key].val.apply', props=['C05', 'C08', 'C03', 'C20'])
     elif not r.must_pass([s[0] for s in key_ok]) or not r.must_pass(nested):
-        ctx.fail('map/Up', body, 'a gated path skips stamping the entry clock or forwarding the nested op', props=['C05', 'C08', 'C03'])
+        ctx.fail('map/Up', body, 'a gated path skips stamping the entry clock or forwarding the nested op', props=['C05', 'C08', 'C03', 'C20'])
     else:
         ctx.ok('map/Up', body, 'entry clock stamped and nested op forwarded on every gated path',
-               line=block_line(it, key_ok[0][0]), props=['C05', 'C08', 'C03'])
+               line=block_line(it, key_ok[0][0]), props=['C05', 'C08', 'C03', 'C20'])
